@@ -336,7 +336,8 @@ func TestVerifReplay(t *testing.T) {
 	}
 }''' % ('\n'.join(rows), ', '.join(go_bytes(x) for x in [
         [4] + b32(ref.G[0]) + b32(ref.G[1] ^ 1), [4] + b32(P) + b32(1), [4] + b32(1) + b32(P + 5), [4] + b32(ref.G[0]) + b32(ref.G[1])[:31],
-        [5] + b32(ref.G[0]) + b32(ref.G[1]), [0, 0], [4] + [0xff] * 64]))
+        [5] + b32(ref.G[0]) + b32(ref.G[1]), [0, 0], [4] + [0xff] * 64, [6] + b32(ref.G[0]) + b32(ref.G[1]), [7] + b32(ref.G[0]) + b32(ref.G[1]),
+        [2] + b32(ref.G[0]), [3] + b32(ref.G[0]), [0] + b32(ref.G[0]) + b32(ref.G[1]), [4] + b32(ref.G[0]) + b32(ref.G[1]) + [0]]))
     okr, outr, pathr = ck.go_test('sm2/internal', src, name='points')
     if okr is True:
         ck.validated += len(pairs)
